@@ -1,7 +1,7 @@
 """C46 -- SuperSpeed IN endpoints deliver data and signal readiness correctly."""
 from ..ir import E, _is_bool
 from .. import q
-from ..fsm import lit_atoms, assignments
+from ..fsm import lit_atoms, assignments, _DUAL
 
 TITLE = 'SuperSpeed stream IN endpoint'
 FLOOR = 45
@@ -52,6 +52,9 @@ def leaves_of(e, out):
             leaves_of(a, out)
     elif isinstance(e, E) and e.op == '~' and _is_bool(e.args[0]):
         leaves_of(e.args[0], out)
+    elif isinstance(e, E) and e.op in _DUAL and len(e.args) == 2:
+        d = E(_DUAL[e.op], e.args, w=1)                # `a != b` is the leaf `a == b` negated (fsm.leaf_atoms)
+        out[d.canon()] = d
     elif isinstance(e, E) and e.op != 'const':
         out[e.canon()] = e
     return out
@@ -113,6 +116,8 @@ def _compile(e):
             return ('~', e.canon(), _compile(e.args[0]))
         if e.op in ('&', '|') and all(_is_bool(a) for a in e.args):
             return (e.op, e.canon(), tuple(_compile(a) for a in e.args))
+        if e.op in _DUAL and len(e.args) == 2:
+            return ('~', e.canon(), ('l', E(_DUAL[e.op], e.args, w=1).canon(), None))
         return ('l', e.canon(), None)
     return ('l', str(e), None)
 
